@@ -56,6 +56,7 @@ func cmdFn(args []string) {
 	dump := fs.Bool("dump", false, "print the SMT script")
 	spec := fs.String("spec", "/verif/spec", "")
 	nilc := fs.Bool("nil", false, "nil checks")
+	parsed := fs.Bool("parsed", false, "messages read are protodesc-normalised descriptor options")
 	tmo := fs.Int("t", 10, "race timeout s")
 	fs.Parse(args)
 	e, err := LoadEngine(*repo, strings.Split(*pkgs, ","), *spec)
@@ -64,6 +65,7 @@ func cmdFn(args []string) {
 		os.Exit(2)
 	}
 	e.nilcheckAll = *nilc
+	e.parsedOptions = *parsed
 	parts := strings.SplitN(*fname, "::", 2)
 	var fns []string
 	if parts[1] == "*" {
